@@ -35,6 +35,7 @@ def run(ck, m):
     _alias.repeat(ck, m, 'C12', ('C12.a',), 'C16.f', key_filter=lambda k: 'retry-writes-the-same-record' in k)
     discard_is_total(ck, m)
     metadata_written_by_every_snapshot(ck, m)
+    every_listed_database_is_loaded(ck, m)
 
 
 def _run16(ck, m):
@@ -457,3 +458,39 @@ def metadata_written_by_every_snapshot(ck, m):
           'the metadata writer is called on every path of the snapshot writer' if okf else
           'the snapshot writer can finish without writing the metadata file (calls: %s): id and strategy of the database are restored from the '
           'fall-back (the number of databases loaded so far, Newer) after the next restart' % [wb.loc(x) for x in mw], '%s:%s' % (wb.file, wb.line))
+
+
+def every_listed_database_is_loaded(ck, m):
+    """C16.i — see RULES"""
+    from nl import locks
+    P = m.prog
+    ck.rule('C16.i', 'every database file the start-up listing finds becomes a database (or the start fails): in the per-entry loader the call that '
+                     'registers the loaded database depends on the directory entry and on the `.keys` suffix test only — a loader that skips a database '
+                     '(a missing values file, a short file) comes up without it while its identifier is still in the kept operation log, and the next '
+                     'create-db is handed an id that a loaded database already owns')
+    cands = [b for b in P.user_bodies() if b.kind in ('fn', 'method') and b.id.startswith('nundb::storage::disk::')
+             and any(callee(t).endswith('bo::Databases::add_database') for _, t in b.calls())
+             and any(callee(t).endswith('create_db_from_file_name') for _, t in b.calls())]
+    ALLOWED = ('ends_with', 'file_name', 'into_string', 'unwrap', 'deref', 'as_str', 'as_ref', 'to_string', 'clone', 'to_str', 'to_string_lossy', 'borrow',
+               'as_os_str', 'to_owned', 'expect')
+    n = 0
+    for b in cands:
+        for bi, t in b.calls():
+            if not callee(t).endswith('bo::Databases::add_database'):
+                continue
+            n += 1
+            bad = []
+            for sw in locks.controlling_switches(b, bi):
+                calls_, _pp = locks.backward_slice(b, b.term(sw)['o'], control=True)
+                for c in sorted(calls_):
+                    tc = b.term(c)
+                    if is_log(tc):
+                        continue
+                    leaf = callee_decl(tc).split('::')[-1]
+                    if leaf not in ALLOWED:
+                        bad.append('%s (%s)' % (callee_decl(tc), b.loc(c)))
+            ck.ob('C16.i', short(b.id), 'every-listed-database-is-loaded', not bad,
+                  'the database of every `.keys` entry is loaded and registered' if not bad else
+                  'whether a listed database is loaded also depends on %s: a database that is skipped keeps its records in the operation log '
+                  'while its id is free for the next create-db' % sorted(set(bad))[:3], b.loc(bi))
+    ck.floor('C16.i', n, 1, 'registrations of a loaded database')
